@@ -560,15 +560,32 @@ func (rn *Runner) Step(in Input) (err error) {
 		}
 		rn.mu.Lock()
 		rn.ribEv = nil
+		resp0 := rn.resps[s.cid]
 		rn.mu.Unlock()
 		rn.Sink.Emit(Event{"ev": "msgbegin", "s": in.S, "m": in.M.toEvent(), "sendfail": in.SendFail})
 		s.stream.in <- req
 		ended, rpcErr, hang := rn.waitQuiet(s)
 		if hang {
 			rn.Hangs++
-			rn.Sink.Emit(Event{"ev": "hang", "at": "msg", "s": in.S})
+			rn.Sink.Emit(Event{"ev": "hang", "at": "msg", "s": in.S, "blocked": ribdrv.BlockedIn("openconfig/gribigo")})
 			rn.dead = true
 			return nil
+		}
+		if ended && in.SendFail && in.M.K == "ops" && len(in.M.Ops) >= 2 {
+			// The write of the first response failed and the handler returned; the
+			// receive goroutine still applies (at most) the next operation of the
+			// request before it blocks handing over a result nobody reads. Wait for
+			// that straggler so that its effect belongs to this message.
+			deadline := time.Now().Add(5 * time.Second)
+			for time.Now().Before(deadline) {
+				rn.mu.Lock()
+				n, e := rn.resps[s.cid], rn.rpcerrs[s.cid]
+				rn.mu.Unlock()
+				if n >= resp0+2 || e > 0 {
+					break
+				}
+				time.Sleep(50 * time.Microsecond)
+			}
 		}
 		resps := s.stream.take(s.taken)
 		s.taken += len(resps)
@@ -629,7 +646,7 @@ func (rn *Runner) Step(in Input) (err error) {
 		if ended {
 			end = absEnd(rpcErr)
 		}
-		rn.emitState(Event{"ev": "msgend", "s": in.S, "resp": nonOp, "end": end})
+		rn.emitState(Event{"ev": "msgend", "s": in.S, "resp": nonOp, "end": end, "sendfail": in.SendFail})
 	case "close":
 		s := rn.sess[in.S]
 		if s == nil || s.ended {
@@ -682,7 +699,7 @@ func (rn *Runner) Step(in Input) (err error) {
 			rn.emitState(ev)
 		case <-time.After(waitLimit):
 			rn.Hangs++
-			rn.Sink.Emit(Event{"ev": "hang", "at": "flushrpc"})
+			rn.Sink.Emit(Event{"ev": "hang", "at": "flushrpc", "blocked": ribdrv.BlockedIn("openconfig/gribigo")})
 			rn.dead = true
 		}
 	case "get":
@@ -774,7 +791,7 @@ func (rn *Runner) doGet(in Input) {
 		rn.Sink.Emit(ev)
 	case <-time.After(waitLimit):
 		rn.Hangs++
-		rn.Sink.Emit(Event{"ev": "hang", "at": "get"})
+		rn.Sink.Emit(Event{"ev": "hang", "at": "get", "blocked": ribdrv.BlockedIn("openconfig/gribigo")})
 		rn.dead = true
 	}
 }
